@@ -382,6 +382,73 @@ def _distinct_rows(S, A, tag):
     return pos
 
 
+def _any_rows_clauses(S, A, B, ret, which):
+    """Specification of tt_intersect_rows / tt_setdiff_rows for arbitrary A (rows may repeat) -- the form the
+    property states: the result lists positions of A, one per distinct row (the first occurrence of that row in A),
+    for exactly the rows of A that do (intersect) / do not (setdiff) occur in B; intersect never lists a row twice,
+    setdiff is strictly ascending."""
+    n, m = A.shape[0], B.shape[0]
+    ra, rb = N.ensure_rows(S.ctx, A), N.ensure_rows(S.ctx, B)
+    L = ret.shape[0]
+    rt = lambda t_: T.tz(ret.fn(t_))
+    t, u, i, j, k_ = z3.Int("t!y"), z3.Int("u!y"), z3.Int("i!y"), z3.Int("j!y"), z3.Int("k!y")
+    g = S.body_ghosts
+    us, ass = g.get("unique@src", []), g.get("argsort@src", [])
+    uA = next((e for e in us if e["rowfn"] is getattr(A, "rowfn", None)), None)
+    uB = next((e for e in us if e["rowfn"] is getattr(B, "rowfn", None)), None)
+    asort = lambda ue: next((e["ghost"] for e in ass if ue is not None and e["src"] is ue["idx_arr"]), None)
+    gA, gB = asort(uA), asort(uB)
+    both = uA is not None and uB is not None and gA is not None and gB is not None and g.get("select") and g.get("call:tt_ismember_rows")
+    if uA is not None and gA is not None:
+        (mA, idxA, invA), (pA, pinvA) = uA["ghost"], gA
+        ai = lambda i_: pinvA(invA(i_))           # position of row i of A in A' (distinct rows of A by first occurrence)
+        arow = lambda q_: ra(idxA(pA(q_)))        # row q of A'
+        yield "lemma:row-i-of-A-sits-at-a(i)-in-A'", T.ForAll(
+            [i], z3.Implies(z3.And(0 <= i, T.tz(i < n)), z3.And(0 <= ai(i), ai(i) < mA, arow(ai(i)) == ra(i), idxA(pA(ai(i))) <= i)), [ra(i)]), "lemma"
+        yield "lemma:position-k-of-A'-is-a-first-occurrence", T.ForAll(
+            [k_, i], z3.Implies(z3.And(0 <= k_, k_ < mA, 0 <= i, T.tz(i < n), ra(i) == arow(k_)), z3.And(ai(i) == k_, idxA(pA(k_)) <= i)), [[arow(k_), ra(i)]]), "lemma"
+    if both:
+        (mB, idxB, invB), (pB, pinvB) = uB["ghost"], gB
+        (_, sel, rk) = g["select"][-1]
+        matched, loc = g["call:tt_ismember_rows"][0]
+        sj = lambda j_: pinvB(invB(j_))           # position of row j of B in B'
+        yield "lemma:row-j-of-B-sits-at-s(j)-in-B'", T.ForAll(
+            [j], z3.Implies(z3.And(0 <= j, T.tz(j < m)), z3.And(0 <= sj(j), sj(j) < mB, rb(idxB(pB(sj(j)))) == rb(j))), [rb(j)]), "lemma"
+        yield "lemma:s(j)-is-matched-at-a(i)", T.ForAll(
+            [i, j], z3.Implies(z3.And(0 <= i, T.tz(i < n), 0 <= j, T.tz(j < m), ra(i) == rb(j)),
+                               z3.And(T.tz(matched.fn(sj(j))), T.tz(loc.fn(sj(j))) == ai(i))), [[ra(i), rb(j)]]), "lemma"
+    yield "positions-of-A", T.ForAll([t], z3.Implies(z3.And(0 <= t, T.tz(t < L)), z3.And(0 <= rt(t), T.tz(rt(t) < n))))
+    yield "each-position-is-the-first-occurrence-of-its-row", T.ForAll(
+        [t, i], z3.Implies(z3.And(0 <= t, T.tz(t < L), 0 <= i, i < rt(t)), ra(i) != ra(rt(t))))
+    if which == "intersect":
+        yield "listed-rows-occur-in-B", T.ForAll(
+            [t], z3.Implies(z3.And(0 <= t, T.tz(t < L)), T.Exists([j], z3.And(0 <= j, T.tz(j < m), rb(j) == ra(rt(t))))))
+        if both:
+            w = lambda j_: rk(sj(j_))
+            yield "every-common-row-listed(witness)", T.ForAll(
+                [i, j], z3.Implies(z3.And(0 <= i, T.tz(i < n), 0 <= j, T.tz(j < m), ra(i) == rb(j)),
+                                   z3.And(0 <= w(j), T.tz(w(j) < L), ra(rt(w(j))) == ra(i))), [[ra(i), rb(j)]])
+        else:
+            yield "every-common-row-listed", T.ForAll(
+                [i, j], z3.Implies(z3.And(0 <= i, T.tz(i < n), 0 <= j, T.tz(j < m), ra(i) == rb(j)),
+                                   T.Exists([t], z3.And(0 <= t, T.tz(t < L), ra(rt(t)) == ra(i)))))
+        yield "no-row-listed-twice", T.ForAll([t, u], z3.Implies(z3.And(0 <= t, t < u, T.tz(u < L)), ra(rt(t)) != ra(rt(u))))
+    else:
+        yield "strictly-ascending", T.ForAll([t, u], z3.Implies(z3.And(0 <= t, t < u, T.tz(u < L)), rt(t) < rt(u)))
+        yield "listed-rows-do-not-occur-in-B", T.ForAll(
+            [t, j], z3.Implies(z3.And(0 <= t, T.tz(t < L), 0 <= j, T.tz(j < m)), rb(j) != ra(rt(t))))
+        absent = lambda i_: T.ForAll([j], z3.Implies(z3.And(0 <= j, T.tz(j < m)), rb(j) != ra(i_)))
+        if uA is not None and g.get("setdiff1d"):
+            # row i of A is value idxA(invA(i)) of the first argument of setdiff1d, at index invA(i)
+            (_, sdpos, sdslot) = g["setdiff1d"][-1]
+            w = lambda i_: sdslot(invA(i_))
+            yield "every-absent-row-listed(witness)", T.ForAll(
+                [i], z3.Implies(z3.And(0 <= i, T.tz(i < n), absent(i)), z3.And(0 <= w(i), T.tz(w(i) < L), ra(rt(w(i))) == ra(i))), [ra(i)])
+        else:
+            yield "every-absent-row-listed", T.ForAll(
+                [i], z3.Implies(z3.And(0 <= i, T.tz(i < n), absent(i)), T.Exists([t], z3.And(0 <= t, T.tz(t < L), ra(rt(t)) == ra(i)))))
+
+
 def _rows_requires(S, a):
     A, B = a["MatrixA"], a["MatrixB"]
     yield "operands-are-matrices", A.ndim == 2 and B.ndim == 2
@@ -404,15 +471,22 @@ class tt_intersect_rows(Contract):
         "occurrence of that row in B."
     )
 
+    def case_names(self):
+        return ["distinct-rows", "any-rows"]
+
     def setup(self, S, case):
         n, m = S.nat("n"), S.nat("m")
         c = S.int("c", 1)
         A = S.row_matrix("A", n, c)
         B = S.row_matrix("B", m, c)
+        if case == "any-rows":
+            return dict(MatrixA=A, MatrixB=B, __any__=True)
         posA = _distinct_rows(S, A, "A")
         return dict(MatrixA=A, MatrixB=B, __posA__=posA)
 
     def requires(self, S, a):
+        # the stronger position-wise form used at call sites needs distinct rows in A; the function itself is
+        # specified (and verified) for arbitrary A in the case "any-rows"
         yield from _rows_requires(S, a)
 
     def fresh_result(self, S, a):
@@ -438,6 +512,9 @@ class tt_intersect_rows(Contract):
                 [i, j], z3.Implies(z3.And(0 <= i, T.tz(i < n), 0 <= j, T.tz(j < m), ra(i) == rb(j)), z3.And(0 <= where(i), T.tz(where(i) < L), rt(where(i)) == i)), [[ra(i), rb(j)]])
             ret.in_range_of = n
             ret.distinct = True
+            return
+        if a.get("__any__"):
+            yield from _any_rows_clauses(S, A, B, ret, "intersect")
             return
         yield "positions-of-common-rows", T.ForAll(
             [t], z3.Implies(z3.And(0 <= t, T.tz(t < L)), z3.And(0 <= T.tz(ret.fn(t)), T.tz(ret.fn(t) < n),
@@ -479,11 +556,16 @@ class tt_setdiff_rows(Contract):
         "list of exactly the positions i of A whose row does not occur in B."
     )
 
+    def case_names(self):
+        return ["distinct-rows", "any-rows"]
+
     def setup(self, S, case):
         n, m = S.nat("n"), S.nat("m")
         c = S.int("c", 1)
         A = S.row_matrix("A", n, c)
         B = S.row_matrix("B", m, c)
+        if case == "any-rows":
+            return dict(MatrixA=A, MatrixB=B, __any__=True)
         posA = _distinct_rows(S, A, "A")
         return dict(MatrixA=A, MatrixB=B, __posA__=posA)
 
@@ -516,6 +598,9 @@ class tt_setdiff_rows(Contract):
             ret.in_range_of = n
             ret.distinct = True
             ret.sorted_strict = True
+            return
+        if a.get("__any__"):
+            yield from _any_rows_clauses(S, A, B, ret, "setdiff")
             return
         g = S.body_ghosts
         rg = _row_ghosts(S, A, B)
